@@ -22,6 +22,8 @@ _op = st.one_of(
     st.tuples(st.just("merge"), st.integers(0, 5)).map(list),
     st.tuples(st.just("merge"), st.integers(0, 5)).map(list),
     st.tuples(st.just("update"), st.integers(0, 9)).map(list),
+    st.tuples(st.just("comment_shared"), st.sampled_from(["comment-on", "alter-set-comment"])).map(list),
+    st.tuples(st.just("touch_target"), st.integers(0, 2)).map(list),
     st.tuples(st.just("count")).map(list),
     st.tuples(st.just("info_tables")).map(list),
     st.tuples(st.just("info_columns")).map(list),
@@ -49,14 +51,19 @@ def _case(draw, tier):
     maxops = 3 if k == 2 else 2
     alphabet = draw(st.sampled_from(["atomic", "all"]))
     scripts = [draw(st.lists(_op_atomic if alphabet == "atomic" else _op, min_size=1, max_size=maxops)) for _ in range(k)]
-    if draw(st.integers(0, 3)) == 0:
+    if draw(st.integers(0, 2)) == 0:
         # every session runs the same kind of multi-step statement (two MERGEs, two connects creating the same database, ...): the
         # interleavings in which their internal steps cross are the ones no reader is needed for
-        kind = draw(st.sampled_from(["merge", "connect"] if alphabet == "atomic" else ["merge", "merge", "connect", "create_comment", "create_lengths"]))
+        kind = draw(st.sampled_from(["merge", "connect"] if alphabet == "atomic" else ["merge", "connect", "create_comment", "create_lengths", "comment_shared", "comment_shared", "merge_vs_touch", "merge_vs_touch", "merge_vs_touch"]))
         if kind == "merge" and alphabet == "atomic":
             alphabet = "all"
-        for sc in scripts:
-            first = {"merge": ["merge", 0], "connect": ["connect", "DBX", draw(st.sampled_from(["SX", "SY"]))], "create_comment": ["create_comment", "CA"], "create_lengths": ["create_lengths", "CA"]}[kind]
+        if kind == "merge_vs_touch":
+            # one session merges into its target while the others write (without changing anything) the very rows that MERGE updates
+            for si, sc in enumerate(scripts):
+                sc[0] = ["merge", 0] if si == 0 else ["touch_target", 0]
+            kind = None
+        for sc in scripts if kind else []:
+            first = {"comment_shared": ["comment_shared", draw(st.sampled_from(["comment-on", "alter-set-comment"]))], "merge": ["merge", 0], "connect": ["connect", "DBX", draw(st.sampled_from(["SX", "SY"]))], "create_comment": ["create_comment", "CA"], "create_lengths": ["create_lengths", "CA"]}[kind]
             sc[0] = first
     nsched = 6 if tier == "quick" else 16
     schedules = [draw(st.lists(st.integers(0, k - 1), min_size=2, max_size=40)) for _ in range(nsched)]
@@ -83,6 +90,14 @@ def _exec_op(fs, state: dict, sid: int, op) -> tuple:
             o = run(state["default"].cursor(), f"MERGE INTO TGT{sid} USING SRC ON TGT{sid}.K = SRC.K WHEN MATCHED THEN UPDATE SET V = SRC.V WHEN NOT MATCHED THEN INSERT (K, V) VALUES (SRC.K, SRC.V)")
             if o.ok:
                 o.rows = [tuple(int(x) for x in o.rows[0])]
+        elif kind == "comment_shared":
+            # every session comments the same table, which has no comment yet: in any serial order all succeed and the last one stays
+            o = run(cur, f"COMMENT ON TABLE DB0.S0.SHARED IS 'by {sid}'" if op[1] == "comment-on" else f"ALTER TABLE DB0.S0.SHARED SET COMMENT = 'by {sid}'")
+        elif kind == "touch_target":
+            # a write that changes nothing to the rows of session <n>'s MERGE target (the rows that MERGE updates among them)
+            o = run(cur, f"UPDATE DB0.S0.TGT{int(op[1]) % state['k']} SET V = V WHERE K >= 0")
+            if o.ok:
+                o.rows = [(">=2" if int(o.rows[0][0]) >= 2 else int(o.rows[0][0]),)]  # (how many rows the target has by then depends on the order, both ways are serial)
         elif kind == "update":
             o = run(cur, f"UPDATE DB0.S0.SHARED SET OWNER = OWNER WHERE TAG = {sid * 1000 + int(op[1])}")
         elif kind == "count":
@@ -134,7 +149,7 @@ def _setup(fs, k: int, instance: str = "default") -> list[dict]:
         cur.execute(f"CREATE TABLE TGT{sid} (K INT, V VARCHAR)")
         # targets differ per session, so that one session's MERGE working from another's intermediate result shows
         cur.execute(f"INSERT INTO TGT{sid} VALUES ({1 + sid}, 'old{sid}'), ({9 - sid}, 'nine{sid}')")
-        states.append({"default": fs.connect("DB0", "S0")})
+        states.append({"default": fs.connect("DB0", "S0"), "k": k})
     return states
 
 
@@ -173,7 +188,7 @@ def run_schedules(case, ctx: Ctx) -> None:
         raise InvalidCase()
     for sc in scripts:
         for op in sc:
-            if not isinstance(op, list) or not op or op[0] not in ("connect", "insert", "create_comment", "create_lengths", "merge", "update", "count", "info_tables", "info_columns", "show_tables", "describe"):
+            if not isinstance(op, list) or not op or op[0] not in ("connect", "insert", "create_comment", "create_lengths", "merge", "update", "comment_shared", "touch_target", "count", "info_tables", "info_columns", "show_tables", "describe"):
                 raise InvalidCase()
     refs = None
     for schedule in schedules:
@@ -250,7 +265,7 @@ def run_schedules(case, ctx: Ctx) -> None:
                 who = "no-single-outcome" if not odd else ("reader-outcome" if all(k_ in READS for k_ in odd) else "writer-outcome:" + "+".join(k_ for k_ in odd if k_ not in READS))
                 serial_errs = set()
                 what = "statement-outcomes" if not outs_ok else ("final-state" if not final_ok else "combination")
-                writers = [k_ for k_ in kinds if k_ in ("create_comment", "create_lengths", "merge")]
+                writers = [k_ for k_ in kinds if k_ in ("create_comment", "create_lengths", "merge", "comment_shared")]
                 disc = "multi-step-writer-present" if writers else ("connect-present" if "connect" in kinds else "single-step-only")
                 ctx.fail(
                     f"C19|not-serialisable|{what}|{('raises:' + '+'.join(errs)) if errs else 'no-error'}|{disc}|{who}",
